@@ -628,16 +628,14 @@ func (e *Extractor) showTextArray(arr core.Array) {
 			hScale := e.gs.Text.HorizontalScaling / 100.0
 			adjustment := -float64(v) * e.gs.GetFontSize() * hScale / 1000.0
 
-			// Update text matrix
-			tm := e.gs.GetTextMatrix()
-			tm[4] += adjustment
-			e.gs.SetTextMatrix(tm)
+			// Update the text matrix only: a TJ adjustment moves the glyph
+			// position, not the start of the line (SetTextMatrix is the Tm
+			// operator and would move the line matrix with it)
+			e.gs.Text.TextMatrix[4] += adjustment
 		case core.Real:
 			hScale := e.gs.Text.HorizontalScaling / 100.0
 			adjustment := -float64(v) * e.gs.GetFontSize() * hScale / 1000.0
-			tm := e.gs.GetTextMatrix()
-			tm[4] += adjustment
-			e.gs.SetTextMatrix(tm)
+			e.gs.Text.TextMatrix[4] += adjustment
 		}
 	}
 }
